@@ -93,6 +93,12 @@ func Render(d Doc) string {
 		"tasks:",
 		"  main: " + p("task.value", taskMap),
 		"  other: {cmds: [echo other]}",
+		// wildcard names: text on both sides of the star, two stars, a star at either end
+		"  'w-*-w': {cmds: ['echo {{.MATCH}}']}",
+		"  'a*a': {cmds: ['echo {{.MATCH}}']}",
+		"  'x*y*z': {cmds: ['echo {{.MATCH}}']}",
+		"  'p*': {cmds: ['echo {{.MATCH}}']}",
+		"  '*q': {aliases: [qq], cmds: ['echo {{.MATCH}}']}",
 	}
 	if v, ok := o["root.tasks"]; ok {
 		lines = append(lines[:11], "tasks: "+v)
@@ -159,7 +165,9 @@ func Exercise(idx int, content string) Result {
 			names = append(names, n)
 		}
 	})
-	names = append(names, "nope", "m", "a(b", "inc:it", "ia:it")
+	names = append(names, "nope", "m", "a(b", "inc:it", "ia:it",
+		// requests around the wildcard names: shorter than prefix + suffix, empty star, overlapping, the pattern itself
+		"w-w", "w--w", "w-1-w", "a", "aa", "aba", "xyz", "xz", "x1y2z", "p", "q", "pq", "*", "", ":", "a*a", "qq")
 	for _, n := range names {
 		n := n
 		guard("GetTask:"+n, &res, func() { e.GetTask(&task.Call{Task: n}) })
